@@ -1,5 +1,6 @@
 import RzmqModel.Driver.Engine
 import RzmqModel.Model.Pair
+import RzmqModel.Driver.Fsm
 /-! Model-side predictions for the stack-level scenarios of `harness/src/stack.rs` (trace acceptance). -/
 namespace Rzmq.Driver.Stack
 open Rzmq Rzmq.Driver
@@ -33,9 +34,11 @@ def runOp (p : List String) : String :=
   | "reqstale" :: _ => "alternation=ok"     -- C10.req_state_tracks_log: after a successful receive a send is accepted, a receive refused
   | ["stream", _opts, _scfg, _rcfg, msgs] =>
     -- the specification (C01.sendpath_fifo + end_to_end + recvpath_fifo): exactly the accepted messages, in order
-    let ms := parseBatch msgs
+    -- what the receiver must see: the frames as given, MORE on all but the last (C02.normalise_*)
+    let ms := (parseBatch msgs).map fun m => m.mapIdx fun i f => { f with more := decide (i + 1 < m.length) }
     let shown := " ".intercalate (ms.map fun m => s!"D({showFrames m})")
     s!"delivered={ms.length}:{hex64 (fnv64 shown.toUTF8.toList)}"
+  | ["fsmscript", kind, script] => Fsm.run kind script
   | "reprace" :: _ => "routing=ok"          -- the specification (C10.rep_alternates_and_routes)         -- the specification: the owning socket keeps working     -- the specification: a fault on another connection is never visible here
   | ["compat", transport, ca, cb] =>
     let cfgA := { normCfg (Engine.parseCfg ca) with isServer := true }
